@@ -124,15 +124,14 @@ pub fn window_weights(win: &Window, len: usize) -> Vec<f32> {
     }
 }
 
-/// Quantizes and fingerprints the window function for caching.
+/// Fingerprints the window function for caching.
+///
+/// The fingerprint must be different for different windows (it is the cache
+/// key), so the parameter is embedded exactly (bit-wise) rather than quantized.
 fn fingerprint_window(w: &Window) -> u64 {
     match *w {
         Window::Rectangle => 0x01_00_00_00_00_00_00_00u64,
-        Window::Tukey { alpha } => {
-            let qalpha = (alpha * 65535.0) as u64;
-            assert!(qalpha < 65536, "alpha is larger than 1");
-            0x02_00_00_00_00_00_00_00u64 + qalpha
-        }
+        Window::Tukey { alpha } => 0x02_00_00_00_00_00_00_00u64 + u64::from(alpha.to_bits()),
     }
 }
 
